@@ -50,6 +50,7 @@ THEOREMS = [
     "Nix.C17.C17_fapl_shape",
     "Nix.C17.C17_locking_bounds",
     "Nix.C17.C17_open_refines",
+    "Nix.C17.C17_open_mode",
     "Nix.C17.C17_reopen_not_refused",
     "Nix.C17.C17_locking_fapl_refuses",
     "Nix.C17.C17_detached_loses",
